@@ -335,6 +335,14 @@ def cases(draw, grid_days=5):
         # years after it - the same pair of offsets carries other abbreviations later on
         zone, y0, span = draw(st.sampled_from(RENAMED))
         span = draw(st.sampled_from([span, span, 15, 30]))
+    right = False
+    if draw(st.integers(0, 15)) == 0:
+        # zones the zoneinfo provider knows beyond the ~600 ids both libraries list: the leap-second variants of the system's tz
+        # database (offset changes are not on whole minutes there)
+        import os
+        if os.path.exists("/usr/share/zoneinfo/right/Europe/Berlin"):
+            zone, right = draw(st.sampled_from(["right/Europe/Berlin", "right/America/New_York", "right/Australia/Lord_Howe", "right/Asia/Kolkata"])), True
+            y0, span = draw(st.integers(1995, 2030)), draw(st.sampled_from([1, 2, 5]))
     y1 = min(2038, y0 + span)
     first = [y0, draw(st.integers(1, 12)), draw(st.integers(1, 28))]
     last = [y1, draw(st.integers(1, 12)), draw(st.integers(1, 28))]
@@ -350,8 +358,8 @@ def cases(draw, grid_days=5):
             f_ = t.date() - timedelta(days=draw(st.integers(0, days - 1)))
             l_ = f_ + timedelta(days=days)
             first, last, y1 = [f_.year, f_.month, f_.day], [l_.year, l_.month, l_.day], l_.year
-    return {"provider": draw(st.sampled_from(["zoneinfo", "pytz"])), "zone": zone, "first": first, "last": last, "grid_days": grid_days,
-            "src_lib": draw(st.sampled_from(["provider", "provider", "other"])), "pre_parse": draw(st.sampled_from([False, False, True])),
+    return {"provider": "zoneinfo" if right else draw(st.sampled_from(["zoneinfo", "pytz"])), "zone": zone, "first": first, "last": last, "grid_days": grid_days,
+            "src_lib": "provider" if right else draw(st.sampled_from(["provider", "provider", "other"])), "pre_parse": draw(st.sampled_from([False, False, True])),
             "own_tzp": draw(st.booleans()),
             "pre_window": draw(st.sampled_from([None, None, [[1990, 1, 1], [1992, 1, 1]], [[2015, 6, 1], [2016, 6, 1]], [[y1, 1, 1], [min(2038, y1 + 2), 12, 31]]]))}
 
